@@ -731,7 +731,10 @@ int main() {
   // big requests.  VERIF_SALSA_PART=huge (thorough tier, run once per build): ONLY the requests of 2^27 … 2^33+100 bytes;
   // otherwise: the ordinary plan, which includes the 2^24+small / 2^26+small requests (arena of 64 MiB).
   const char* part = getenv("VERIF_SALSA_PART");
-  const bool huge = part && !strcmp(part, "huge");
+  // VERIF_SALSA_PART=huge1 (quick tier, black-box build only): two requests of 2^32 + small bytes, one through
+  // fastrandombytes and one straight into the assembly, low parts on either side of the dispatcher's 256-byte threshold
+  const bool huge1 = part && !strcmp(part, "huge1");
+  const bool huge = huge1 || (part && !strcmp(part, "huge"));
   g_winseed = seed;
   g_threads = std::thread::hardware_concurrency();
   if (g_threads < 1) g_threads = 1;
@@ -741,8 +744,12 @@ int main() {
   bool do33 = false;
   if (huge) {
     uint64_t avail = (uint64_t)sysconf(_SC_AVPHYS_PAGES) * (uint64_t)sysconf(_SC_PAGESIZE);
-    if (avail < (6ULL << 30)) { fprintf(stderr, "huge part: %llu MiB of free memory, 6 GiB needed\n", (unsigned long long)(avail >> 20)); return 3; }
-    do33 = avail >= (12ULL << 30);
+    if (avail < (6ULL << 30)) {
+      fprintf(stderr, "huge part: %llu MiB of free memory, 6 GiB needed\n", (unsigned long long)(avail >> 20));
+      if (huge1) { printf("hugeskip 1 => 1\n"); return 0; }   // quick tier: recorded as skipped, not as a failure
+      return 3;
+    }
+    do33 = !huge1 && avail >= (12ULL << 30);
     g_big.init((do33 ? P33 : P32) + (1u << 16));
   } else {
     g_big.init(P26 + (1u << 16));
@@ -772,6 +779,13 @@ int main() {
     size_t al = g.below(64);
     run_job(job++, [&] { asm_call_big(k, n, (size_t)len, side, al); });
   };
+  if (huge1) {
+    const bool lowfirst = g.below(2) == 0;
+    const uint64_t lo = SMALL[g.below(6)], hi = SMALL[6 + g.below(3)];   // < 256 and >= 256
+    big_history(0, {P32 + (lowfirst ? lo : hi)}, true);
+    big_asm(P32 + (lowfirst ? hi : lo), (int)g.below(3));
+    return 0;
+  }
   if (huge) {
 #ifndef FRB_WHITEBOX
     big_history(0, {(1ULL << 27) + 100, (1ULL << 28) + 255, (1ULL << 30) + 64}, true);
